@@ -6,7 +6,7 @@ Import ListNotations.
 Definition set_sites : list site := [
   ((s "sharepoint2text/parsing/extractors/archive_extractor.py"), (s "<module>"), (85)%Z, UAnyAll);
   ((s "sharepoint2text/parsing/extractors/archive_extractor.py"), (s "<module>"), (101)%Z, UNone);
-  ((s "sharepoint2text/parsing/extractors/data_types.py"), (s "DocxContent.iterate_units"), (959)%Z, UMember);
+  ((s "sharepoint2text/parsing/extractors/data_types.py"), (s "DocxContent.iterate_units"), (963)%Z, UMember);
   ((s "sharepoint2text/parsing/extractors/epub_extractor.py"), (s "<module>"), (120)%Z, UMember);
   ((s "sharepoint2text/parsing/extractors/epub_extractor.py"), (s "<module>"), (123)%Z, UMember);
   ((s "sharepoint2text/parsing/extractors/epub_extractor.py"), (s "<module>"), (126)%Z, UMember);
@@ -16,40 +16,41 @@ Definition set_sites : list site := [
   ((s "sharepoint2text/parsing/extractors/html_extractor.py"), (s "<module>"), (142)%Z, UMember);
   ((s "sharepoint2text/parsing/extractors/html_extractor.py"), (s "_HtmlTextExtractor._collect_headings_recursive"), (396)%Z, UMember);
   ((s "sharepoint2text/parsing/extractors/html_extractor.py"), (s "_HtmlTextExtractor._process_node"), (517)%Z, UMember);
-  ((s "sharepoint2text/parsing/extractors/ms_legacy/doc_extractor.py"), (s "_DocReader._extract_images_from_word_document"), (356)%Z, UMember);
-  ((s "sharepoint2text/parsing/extractors/ms_legacy/doc_extractor.py"), (s "_DocReader._extract_png_images_from_bytes"), (450)%Z, UMember);
-  ((s "sharepoint2text/parsing/extractors/ms_legacy/doc_extractor.py"), (s "_DocReader._extract_image_captions"), (590)%Z, UMember);
-  ((s "sharepoint2text/parsing/extractors/ms_legacy/doc_extractor.py"), (s "_DocReader._parse_content"), (693)%Z, UMember);
-  ((s "sharepoint2text/parsing/extractors/ms_legacy/doc_extractor.py"), (s "_DocReader._filter_low_entropy_images"), (558)%Z, ULen);
-  ((s "sharepoint2text/parsing/extractors/ms_legacy/ppt_extractor.py"), (s "<module>"), (86)%Z, UMember);
+  ((s "sharepoint2text/parsing/extractors/ms_legacy/doc_extractor.py"), (s "_DocReader._extract_images_from_word_document"), (357)%Z, UMember);
+  ((s "sharepoint2text/parsing/extractors/ms_legacy/doc_extractor.py"), (s "_DocReader._extract_png_images_from_bytes"), (451)%Z, UMember);
+  ((s "sharepoint2text/parsing/extractors/ms_legacy/doc_extractor.py"), (s "_DocReader._extract_image_captions"), (591)%Z, UMember);
+  ((s "sharepoint2text/parsing/extractors/ms_legacy/doc_extractor.py"), (s "_DocReader._parse_content"), (694)%Z, UMember);
+  ((s "sharepoint2text/parsing/extractors/ms_legacy/doc_extractor.py"), (s "_DocReader._filter_low_entropy_images"), (559)%Z, ULen);
   ((s "sharepoint2text/parsing/extractors/ms_legacy/ppt_extractor.py"), (s "<module>"), (87)%Z, UMember);
-  ((s "sharepoint2text/parsing/extractors/ms_legacy/ppt_extractor.py"), (s "<module>"), (95)%Z, UMember);
-  ((s "sharepoint2text/parsing/extractors/ms_legacy/ppt_extractor.py"), (s "_extract_images_from_pictures_stream"), (613)%Z, UMember);
-  ((s "sharepoint2text/parsing/extractors/ms_legacy/ppt_extractor.py"), (s "_parse_ppt_document"), (364)%Z, UMember);
+  ((s "sharepoint2text/parsing/extractors/ms_legacy/ppt_extractor.py"), (s "<module>"), (88)%Z, UMember);
+  ((s "sharepoint2text/parsing/extractors/ms_legacy/ppt_extractor.py"), (s "<module>"), (96)%Z, UMember);
+  ((s "sharepoint2text/parsing/extractors/ms_legacy/ppt_extractor.py"), (s "_extract_images_from_pictures_stream"), (612)%Z, UMember);
+  ((s "sharepoint2text/parsing/extractors/ms_legacy/ppt_extractor.py"), (s "_parse_ppt_document"), (363)%Z, UMember);
   ((s "sharepoint2text/parsing/extractors/ms_legacy/rtf_extractor.py"), (s "_RtfParser.<class>"), (215)%Z, UAnyAll);
-  ((s "sharepoint2text/parsing/extractors/ms_legacy/xls_extractor.py"), (s "_extract_images_from_workbook"), (348)%Z, UMember);
+  ((s "sharepoint2text/parsing/extractors/ms_legacy/xls_extractor.py"), (s "_extract_images_from_workbook"), (349)%Z, UMember);
   ((s "sharepoint2text/parsing/extractors/ms_modern/docx_extractor.py"), (s "<module>"), (177)%Z, UMember);
   ((s "sharepoint2text/parsing/extractors/ms_modern/docx_extractor.py"), (s "<module>"), (180)%Z, UMember);
-  ((s "sharepoint2text/parsing/extractors/ms_modern/docx_extractor.py"), (s "_extract_formulas_from_context"), (989)%Z, UMember);
-  ((s "sharepoint2text/parsing/extractors/ms_modern/docx_extractor.py"), (s "read_docx"), (1044)%Z, USorted);
-  ((s "sharepoint2text/parsing/extractors/ms_modern/docx_extractor.py"), (s "_extract_images_from_context"), (943)%Z, USorted);
+  ((s "sharepoint2text/parsing/extractors/ms_modern/docx_extractor.py"), (s "_extract_images_from_context"), (915)%Z, UMember);
+  ((s "sharepoint2text/parsing/extractors/ms_modern/docx_extractor.py"), (s "_extract_formulas_from_context"), (1001)%Z, UMember);
+  ((s "sharepoint2text/parsing/extractors/ms_modern/docx_extractor.py"), (s "read_docx"), (1056)%Z, USorted);
+  ((s "sharepoint2text/parsing/extractors/ms_modern/docx_extractor.py"), (s "_extract_images_from_context"), (955)%Z, USorted);
   ((s "sharepoint2text/parsing/extractors/ms_modern/docx_extractor.py"), (s "_extract_images_from_context"), (902)%Z, USorted);
   ((s "sharepoint2text/parsing/extractors/ms_modern/pptx_extractor.py"), (s "<module>"), (192)%Z, UMember);
   ((s "sharepoint2text/parsing/extractors/ms_modern/pptx_extractor.py"), (s "<module>"), (195)%Z, UMember);
   ((s "sharepoint2text/parsing/extractors/ms_modern/pptx_extractor.py"), (s "<module>"), (198)%Z, UMember);
   ((s "sharepoint2text/parsing/extractors/ms_modern/pptx_extractor.py"), (s "<module>"), (202)%Z, UMember);
   ((s "sharepoint2text/parsing/extractors/ms_modern/pptx_extractor.py"), (s "_extract_formulas_from_element"), (660)%Z, UMember);
-  ((s "sharepoint2text/parsing/extractors/ms_modern/pptx_extractor.py"), (s "_process_slide_from_context"), (860)%Z, UMember);
+  ((s "sharepoint2text/parsing/extractors/ms_modern/pptx_extractor.py"), (s "_process_slide_from_context"), (861)%Z, UMember);
   ((s "sharepoint2text/parsing/extractors/ms_modern/xlsx_extractor.py"), (s "<module>"), (79)%Z, UMember);
-  ((s "sharepoint2text/parsing/extractors/open_office/_shared.py"), (s "element_text"), (97)%Z, UMember);
+  ((s "sharepoint2text/parsing/extractors/open_office/_shared.py"), (s "element_text"), (107)%Z, UMember);
   ((s "sharepoint2text/parsing/extractors/open_office/odf_extractor.py"), (s "<module>"), (65)%Z, UMember);
-  ((s "sharepoint2text/parsing/extractors/open_office/odg_extractor.py"), (s "<module>"), (73)%Z, UMember);
-  ((s "sharepoint2text/parsing/extractors/open_office/odg_extractor.py"), (s "_extract_images"), (106)%Z, UMember);
-  ((s "sharepoint2text/parsing/extractors/open_office/odp_extractor.py"), (s "<module>"), (171)%Z, UMember);
-  ((s "sharepoint2text/parsing/extractors/open_office/ods_extractor.py"), (s "<module>"), (179)%Z, UMember);
-  ((s "sharepoint2text/parsing/extractors/open_office/odt_extractor.py"), (s "<module>"), (244)%Z, UMember);
-  ((s "sharepoint2text/parsing/extractors/open_office/odt_extractor.py"), (s "_extract_images_from_context"), (481)%Z, UMember);
-  ((s "sharepoint2text/parsing/extractors/open_office/odt_extractor.py"), (s "_extract_styles_from_context"), (679)%Z, USorted);
+  ((s "sharepoint2text/parsing/extractors/open_office/odg_extractor.py"), (s "<module>"), (74)%Z, UMember);
+  ((s "sharepoint2text/parsing/extractors/open_office/odg_extractor.py"), (s "_extract_images"), (107)%Z, UMember);
+  ((s "sharepoint2text/parsing/extractors/open_office/odp_extractor.py"), (s "<module>"), (172)%Z, UMember);
+  ((s "sharepoint2text/parsing/extractors/open_office/ods_extractor.py"), (s "<module>"), (180)%Z, UMember);
+  ((s "sharepoint2text/parsing/extractors/open_office/odt_extractor.py"), (s "<module>"), (245)%Z, UMember);
+  ((s "sharepoint2text/parsing/extractors/open_office/odt_extractor.py"), (s "_extract_images_from_context"), (482)%Z, UMember);
+  ((s "sharepoint2text/parsing/extractors/open_office/odt_extractor.py"), (s "_extract_styles_from_context"), (680)%Z, USorted);
   ((s "sharepoint2text/parsing/extractors/pdf/pdf_extractor.py"), (s "_assign_digit_glyphs"), (394)%Z, UMember);
   ((s "sharepoint2text/parsing/extractors/pdf/pdf_extractor.py"), (s "_TableExtractor.<class>"), (895)%Z, UMember);
   ((s "sharepoint2text/parsing/extractors/pdf/pdf_extractor.py"), (s "_TableExtractor._split_compound_words"), (1392)%Z, UMember);
@@ -65,13 +66,13 @@ Definition set_sites : list site := [
 ].
 
 Definition nd_sites : list nd_site := [
-  ((s "sharepoint2text/parsing/extractors/archive_extractor.py"), (s "read_archive"), (570)%Z, (s "time.perf_counter"), SLog);
-  ((s "sharepoint2text/parsing/extractors/archive_extractor.py"), (s "read_archive"), (602)%Z, (s "time.perf_counter"), SLog);
-  ((s "sharepoint2text/parsing/extractors/archive_extractor.py"), (s "read_archive"), (580)%Z, (s "time.perf_counter"), SLog);
+  ((s "sharepoint2text/parsing/extractors/archive_extractor.py"), (s "read_archive"), (588)%Z, (s "time.perf_counter"), SLog);
+  ((s "sharepoint2text/parsing/extractors/archive_extractor.py"), (s "read_archive"), (620)%Z, (s "time.perf_counter"), SLog);
+  ((s "sharepoint2text/parsing/extractors/archive_extractor.py"), (s "read_archive"), (598)%Z, (s "time.perf_counter"), SLog);
   ((s "sharepoint2text/parsing/extractors/html_extractor.py"), (s "_HtmlTextExtractor._find_nodes"), (307)%Z, (s "id()"), SIdentityKey);
   ((s "sharepoint2text/parsing/extractors/html_extractor.py"), (s "_HtmlTextExtractor._find_node"), (324)%Z, (s "id()"), SIdentityKey);
-  ((s "sharepoint2text/parsing/extractors/ms_modern/docx_extractor.py"), (s "_extract_formulas_from_context"), (1002)%Z, (s "id()"), SIdentityKey);
-  ((s "sharepoint2text/parsing/extractors/ms_modern/docx_extractor.py"), (s "_extract_formulas_from_context"), (995)%Z, (s "id()"), SIdentityKey);
+  ((s "sharepoint2text/parsing/extractors/ms_modern/docx_extractor.py"), (s "_extract_formulas_from_context"), (1014)%Z, (s "id()"), SIdentityKey);
+  ((s "sharepoint2text/parsing/extractors/ms_modern/docx_extractor.py"), (s "_extract_formulas_from_context"), (1007)%Z, (s "id()"), SIdentityKey);
   ((s "sharepoint2text/parsing/extractors/ms_modern/pptx_extractor.py"), (s "_extract_formulas_from_element"), (673)%Z, (s "id()"), SIdentityKey);
   ((s "sharepoint2text/parsing/extractors/ms_modern/pptx_extractor.py"), (s "_extract_formulas_from_element"), (666)%Z, (s "id()"), SIdentityKey);
   ((s "sharepoint2text/parsing/extractors/pdf/_pypdf_aes_fallback.py"), (s "_cryptaes_encrypt"), (844)%Z, (s "secrets.token_bytes"), SEncryptOnly)
@@ -81,9 +82,9 @@ Definition stream_sites : list stream_site := [
   ((s "sharepoint2text/parsing/extractors/archive_extractor.py"), (s "_detect_archive_type_optimized"), (182)%Z, (s "seek"));
   ((s "sharepoint2text/parsing/extractors/archive_extractor.py"), (s "_detect_archive_type_optimized"), (183)%Z, (s "read"));
   ((s "sharepoint2text/parsing/extractors/archive_extractor.py"), (s "_detect_archive_type_optimized"), (184)%Z, (s "seek"));
-  ((s "sharepoint2text/parsing/extractors/archive_extractor.py"), (s "_extract_from_7z_optimized"), (449)%Z, (s "seek"));
-  ((s "sharepoint2text/parsing/extractors/archive_extractor.py"), (s "_extract_from_7z_optimized"), (450)%Z, (s "tell"));
-  ((s "sharepoint2text/parsing/extractors/archive_extractor.py"), (s "_extract_from_7z_optimized"), (451)%Z, (s "seek"));
+  ((s "sharepoint2text/parsing/extractors/archive_extractor.py"), (s "_extract_from_7z_optimized"), (467)%Z, (s "seek"));
+  ((s "sharepoint2text/parsing/extractors/archive_extractor.py"), (s "_extract_from_7z_optimized"), (468)%Z, (s "tell"));
+  ((s "sharepoint2text/parsing/extractors/archive_extractor.py"), (s "_extract_from_7z_optimized"), (469)%Z, (s "seek"));
   ((s "sharepoint2text/parsing/extractors/epub_extractor.py"), (s "read_epub"), (756)%Z, (s "seek"));
   ((s "sharepoint2text/parsing/extractors/html_extractor.py"), (s "read_html"), (629)%Z, (s "seek"));
   ((s "sharepoint2text/parsing/extractors/html_extractor.py"), (s "read_html"), (631)%Z, (s "read"));
@@ -95,32 +96,32 @@ Definition stream_sites : list stream_site := [
   ((s "sharepoint2text/parsing/extractors/mail/msg_email_extractor.py"), (s "read_msg_format_mail"), (380)%Z, (s "read"));
   ((s "sharepoint2text/parsing/extractors/mhtml_extractor.py"), (s "read_mhtml"), (268)%Z, (s "seek"));
   ((s "sharepoint2text/parsing/extractors/mhtml_extractor.py"), (s "read_mhtml"), (269)%Z, (s "read"));
-  ((s "sharepoint2text/parsing/extractors/ms_legacy/doc_extractor.py"), (s "read_doc"), (237)%Z, (s "seek"));
-  ((s "sharepoint2text/parsing/extractors/ms_legacy/ppt_extractor.py"), (s "read_ppt"), (235)%Z, (s "seek"));
-  ((s "sharepoint2text/parsing/extractors/ms_legacy/ppt_extractor.py"), (s "_extract_ppt_content_structured"), (252)%Z, (s "seek"));
-  ((s "sharepoint2text/parsing/extractors/ms_legacy/ppt_extractor.py"), (s "_extract_ppt_content_structured"), (259)%Z, (s "seek"));
-  ((s "sharepoint2text/parsing/extractors/ms_legacy/ppt_extractor.py"), (s "_extract_ppt_metadata"), (675)%Z, (s "seek"));
-  ((s "sharepoint2text/parsing/extractors/ms_legacy/ppt_extractor.py"), (s "_extract_ppt_metadata"), (680)%Z, (s "seek"));
-  ((s "sharepoint2text/parsing/extractors/ms_legacy/rtf_extractor.py"), (s "read_rtf"), (885)%Z, (s "seek"));
-  ((s "sharepoint2text/parsing/extractors/ms_legacy/rtf_extractor.py"), (s "read_rtf"), (886)%Z, (s "read"));
-  ((s "sharepoint2text/parsing/extractors/ms_legacy/xls_extractor.py"), (s "_read_content"), (203)%Z, (s "read"));
-  ((s "sharepoint2text/parsing/extractors/ms_legacy/xls_extractor.py"), (s "read_xls"), (296)%Z, (s "seek"));
-  ((s "sharepoint2text/parsing/extractors/ms_legacy/xls_extractor.py"), (s "read_xls"), (300)%Z, (s "seek"));
-  ((s "sharepoint2text/parsing/extractors/ms_legacy/xls_extractor.py"), (s "read_xls"), (301)%Z, (s "read"));
-  ((s "sharepoint2text/parsing/extractors/ms_legacy/xls_extractor.py"), (s "_extract_images_from_workbook"), (329)%Z, (s "seek"));
-  ((s "sharepoint2text/parsing/extractors/ms_legacy/xls_extractor.py"), (s "_extract_images_from_workbook"), (333)%Z, (s "seek"));
-  ((s "sharepoint2text/parsing/extractors/ms_modern/docx_extractor.py"), (s "read_docx"), (1025)%Z, (s "seek"));
-  ((s "sharepoint2text/parsing/extractors/ms_modern/pptx_extractor.py"), (s "read_pptx"), (944)%Z, (s "seek"));
+  ((s "sharepoint2text/parsing/extractors/ms_legacy/doc_extractor.py"), (s "read_doc"), (238)%Z, (s "seek"));
+  ((s "sharepoint2text/parsing/extractors/ms_legacy/ppt_extractor.py"), (s "read_ppt"), (236)%Z, (s "seek"));
+  ((s "sharepoint2text/parsing/extractors/ms_legacy/ppt_extractor.py"), (s "_extract_ppt_content_structured"), (253)%Z, (s "seek"));
+  ((s "sharepoint2text/parsing/extractors/ms_legacy/ppt_extractor.py"), (s "_extract_ppt_content_structured"), (260)%Z, (s "seek"));
+  ((s "sharepoint2text/parsing/extractors/ms_legacy/ppt_extractor.py"), (s "_extract_ppt_metadata"), (674)%Z, (s "seek"));
+  ((s "sharepoint2text/parsing/extractors/ms_legacy/ppt_extractor.py"), (s "_extract_ppt_metadata"), (679)%Z, (s "seek"));
+  ((s "sharepoint2text/parsing/extractors/ms_legacy/rtf_extractor.py"), (s "read_rtf"), (888)%Z, (s "seek"));
+  ((s "sharepoint2text/parsing/extractors/ms_legacy/rtf_extractor.py"), (s "read_rtf"), (889)%Z, (s "read"));
+  ((s "sharepoint2text/parsing/extractors/ms_legacy/xls_extractor.py"), (s "_read_content"), (204)%Z, (s "read"));
+  ((s "sharepoint2text/parsing/extractors/ms_legacy/xls_extractor.py"), (s "read_xls"), (297)%Z, (s "seek"));
+  ((s "sharepoint2text/parsing/extractors/ms_legacy/xls_extractor.py"), (s "read_xls"), (301)%Z, (s "seek"));
+  ((s "sharepoint2text/parsing/extractors/ms_legacy/xls_extractor.py"), (s "read_xls"), (302)%Z, (s "read"));
+  ((s "sharepoint2text/parsing/extractors/ms_legacy/xls_extractor.py"), (s "_extract_images_from_workbook"), (330)%Z, (s "seek"));
+  ((s "sharepoint2text/parsing/extractors/ms_legacy/xls_extractor.py"), (s "_extract_images_from_workbook"), (334)%Z, (s "seek"));
+  ((s "sharepoint2text/parsing/extractors/ms_modern/docx_extractor.py"), (s "read_docx"), (1037)%Z, (s "seek"));
+  ((s "sharepoint2text/parsing/extractors/ms_modern/pptx_extractor.py"), (s "read_pptx"), (945)%Z, (s "seek"));
   ((s "sharepoint2text/parsing/extractors/ms_modern/xlsx_extractor.py"), (s "_read_metadata"), (313)%Z, (s "seek"));
   ((s "sharepoint2text/parsing/extractors/ms_modern/xlsx_extractor.py"), (s "_read_content"), (525)%Z, (s "seek"));
   ((s "sharepoint2text/parsing/extractors/ms_modern/xlsx_extractor.py"), (s "_read_content"), (526)%Z, (s "read"));
   ((s "sharepoint2text/parsing/extractors/ms_modern/xlsx_extractor.py"), (s "read_xlsx"), (583)%Z, (s "seek"));
   ((s "sharepoint2text/parsing/extractors/ms_modern/xlsx_extractor.py"), (s "read_xlsx"), (589)%Z, (s "read"));
   ((s "sharepoint2text/parsing/extractors/open_office/odf_extractor.py"), (s "read_odf"), (241)%Z, (s "seek"));
-  ((s "sharepoint2text/parsing/extractors/open_office/odg_extractor.py"), (s "read_odg"), (203)%Z, (s "seek"));
-  ((s "sharepoint2text/parsing/extractors/open_office/odp_extractor.py"), (s "read_odp"), (502)%Z, (s "seek"));
-  ((s "sharepoint2text/parsing/extractors/open_office/ods_extractor.py"), (s "read_ods"), (549)%Z, (s "seek"));
-  ((s "sharepoint2text/parsing/extractors/open_office/odt_extractor.py"), (s "read_odt"), (778)%Z, (s "seek"));
+  ((s "sharepoint2text/parsing/extractors/open_office/odg_extractor.py"), (s "read_odg"), (204)%Z, (s "seek"));
+  ((s "sharepoint2text/parsing/extractors/open_office/odp_extractor.py"), (s "read_odp"), (514)%Z, (s "seek"));
+  ((s "sharepoint2text/parsing/extractors/open_office/ods_extractor.py"), (s "read_ods"), (566)%Z, (s "seek"));
+  ((s "sharepoint2text/parsing/extractors/open_office/odt_extractor.py"), (s "read_odt"), (779)%Z, (s "seek"));
   ((s "sharepoint2text/parsing/extractors/pdf/pdf_extractor.py"), (s "_open_pdf_reader"), (220)%Z, (s "seek"));
   ((s "sharepoint2text/parsing/extractors/pdf/pdf_extractor.py"), (s "_open_pdf_reader"), (228)%Z, (s "seek"));
   ((s "sharepoint2text/parsing/extractors/pdf/pdf_extractor.py"), (s "_should_skip_images"), (248)%Z, (s "getbuffer().nbytes"));
@@ -153,7 +154,7 @@ Definition stream_sites : list stream_site := [
 
 (* modes of zipfile.ZipFile(file_like, mode) / open(...) applied to the input object *)
 Definition open_modes : list (str * str * Z * str) := [
-  ((s "sharepoint2text/parsing/extractors/archive_extractor.py"), (s "_extract_from_zip_optimized"), (295)%Z, (s "r"));
+  ((s "sharepoint2text/parsing/extractors/archive_extractor.py"), (s "_extract_from_zip_optimized"), (313)%Z, (s "r"));
   ((s "sharepoint2text/parsing/extractors/util/zip_bomb.py"), (s "open_zipfile"), (125)%Z, (s "r"));
   ((s "sharepoint2text/parsing/extractors/util/zip_bomb.py"), (s "validate_zip_bytesio"), (148)%Z, (s "r"))
 ].
